@@ -133,6 +133,11 @@ def check(prog: Program, res: Result) -> None:
     check_conv(prog, res)
     # crops inherit eff_scale / orig_size / image of the frame their centroid was found in (shared with C12-crop)
     c12.check_crop(prog, res, rule="C02-frame")
+    # sub-pixel refinement crops the patch of each peak from that peak's own map (shared with C07-valid / C06-index)
+    from . import c06, c07
+    res.borrow(c07.check_valid, "C02-refine", prog)
+    res.borrow(c06.check_refine, "C02-refine", prog)
+    res.borrow(c12.check_align, "C02-frame", prog)
     res.floor("C02-out", 8)
     res.floor("C02-own", 7)
     res.floor("C02-pad", 2)
